@@ -897,7 +897,7 @@ static void sweep(bool nested)
 
 static void random_runs(void)
 {
-	long long n = vh_opt.cases ? vh_opt.cases : (vh_opt.thorough ? 2000000 : 30000);
+	long long n = vh_opt.cases ? vh_opt.cases : (vh_opt.thorough ? 8000000 : 30000);
 	const void *w = shim_watched();
 	for (long long c = vh_opt.proc; c < n && vh_nviol < 8; c += vh_opt.nproc) {
 		if (vh_opt.only_case >= 0 && c != vh_opt.only_case)
@@ -983,7 +983,7 @@ static void co_main(void *arg)
 
 static void co_runs(void)
 {
-	long long n = vh_opt.cases ? vh_opt.cases : (vh_opt.thorough ? 1000000 : 20000);
+	long long n = vh_opt.cases ? vh_opt.cases : (vh_opt.thorough ? 4000000 : 20000);
 	co_mode = true;
 	for (long long c = vh_opt.proc; c < n && vh_nviol < 8; c += vh_opt.nproc) {
 		if (vh_opt.only_case >= 0 && c != vh_opt.only_case)
